@@ -115,6 +115,7 @@ impl SymbolTable {
     pub fn new_context(&mut self)
         requires sym_wf(*old(self))
         ensures
+            sym_globals_kept(*old(self), *final(self)),
             final(self).contexts@.len() == old(self).contexts@.len() + 1, final(self).contexts@.drop_last() =~= old(self).contexts@,
             ctx_is_new(final(self).contexts@.last(), Scope::Local),
             sym_wf(*final(self)), sym_contexts(*final(self)) == sym_contexts(*old(self)) + 1, sym_depth(*final(self)) == 1,
@@ -137,6 +138,7 @@ impl SymbolTable {
     pub fn leave_context(&mut self) -> (n: usize)
         requires sym_wf(*old(self)), sym_contexts(*old(self)) >= 2
         ensures
+            sym_globals_kept(*old(self), *final(self)),
             final(self).contexts@ == old(self).contexts@.drop_last(), n == sym_max_size(*old(self)),
             sym_wf(*final(self)), sym_contexts(*final(self)) == sym_contexts(*old(self)) - 1,
             sym_depth(*final(self)) == sym_outer(*old(self)).last(), sym_outer(*final(self)) == sym_outer(*old(self)).drop_last(),
@@ -165,6 +167,7 @@ impl SymbolTable {
     pub fn resolve(&mut self, name: &str) -> (r: Option<Symbol>)
         requires sym_wf(*old(self))
         ensures
+            sym_globals_kept(*old(self), *final(self)),
             //@VACUITY
             final(self).contexts@ == old(self).contexts@,
             r == sym_resolve(*old(self), name@),
@@ -177,6 +180,7 @@ impl SymbolTable {
     pub fn define(&mut self, name: &str) -> (r: Result<Symbol, Error>)
         requires sym_wf(*old(self))
         ensures
+            sym_globals_kept(*old(self), *final(self)),
             //@VACUITY
             sym_others_same(*old(self), *final(self)), sym_wf(*final(self)),
             sym_depth(*final(self)) == sym_depth(*old(self)), sym_contexts(*final(self)) == sym_contexts(*old(self)), sym_outer(*final(self)) == sym_outer(*old(self)),
@@ -191,6 +195,7 @@ impl SymbolTable {
     pub fn enter_scope(&mut self)
         requires sym_wf(*old(self))
         ensures
+            sym_globals_kept(*old(self), *final(self)),
             //@VACUITY
             sym_others_same(*old(self), *final(self)), sym_wf(*final(self)),
             ctx_view(final(self).contexts@.last()) == ctx_view(old(self).contexts@.last()).push(Seq::<Seq<char>>::empty()),
@@ -212,6 +217,7 @@ impl SymbolTable {
     pub fn leave_scope(&mut self)
         requires sym_wf(*old(self)), sym_depth(*old(self)) >= 2
         ensures
+            sym_globals_kept(*old(self), *final(self)),
             //@VACUITY
             sym_others_same(*old(self), *final(self)), sym_wf(*final(self)),
             ctx_view(final(self).contexts@.last()) == ctx_view(old(self).contexts@.last()).drop_last(),
@@ -228,18 +234,26 @@ impl SymbolTable {
         }
     }
 
-    /// O17.sym  after a failed compilation: every function context and every block scope still open is forgotten;
-    /// what was declared in the outermost scope of the global context stays, with the same slots
-    pub fn reset_to_global(&mut self)
+    /// how many names the outermost scope of the global context holds (what a failed compilation rolls back to)
+    pub fn global_len(&self) -> (n: usize)
+        requires sym_wf(*self)
+        ensures n == sym_global_names(*self).len()
+    {
+//@BODY file=symbols.rs fn=global_len impl=SymbolTable sig="pub fn global_len(&self) -> usize" rules="R4"
+    }
+
+    /// O17.sym  after a failed compilation: every function context and every block scope still open is forgotten, and
+    /// so is every name beyond the first `keep` of the outermost global scope; those first names stay, with the same slots
+    pub fn reset_to_global(&mut self, keep: usize)
         requires sym_wf(*old(self))
         ensures
             //@VACUITY
-            final(self).contexts@.len() == 1,
-            ctx_view(final(self).contexts@[0]) =~= ctx_view(old(self).contexts@[0]).take(1),
+            final(self).contexts@.len() == 1, ctx_view(final(self).contexts@[0]).len() == 1,
+            sym_global_names(*final(self)) =~= sym_global_names(*old(self)).take(if keep <= sym_global_names(*old(self)).len() { keep as int } else { sym_global_names(*old(self)).len() as int }),
             final(self).contexts@[0].scope == old(self).contexts@[0].scope,
             sym_wf(*final(self)), sym_contexts(*final(self)) == 1, sym_depth(*final(self)) == 1,
     {
-//@BODY file=symbols.rs fn=reset_to_global impl=SymbolTable sig="pub fn reset_to_global(&mut self)" rules="R4"
+//@BODY file=symbols.rs fn=reset_to_global impl=SymbolTable sig="pub fn reset_to_global(&mut self, keep: usize)" rules="R4"
     }
 }
 
